@@ -43,7 +43,19 @@ type EngScenario struct {
 	Sparse   bool       `json:"sparse"` // snapshots list only non-empty entries (large N)
 	Procs    []bool     `json:"procs"`  // user post-processors that are components themselves; true = LazyInit
 	Mode     []string   `json:"mode"`   // per node: normal | beforeNil | shortcut (lifecycle imposed by the rig processor)
+	Quiet    bool       `json:"quiet"`  // a user instantiation-aware processor ordered FIRST that answers false to PostProcessAfterInstantiation
 }
+
+// quietProc keeps the library's default answer (false) to PostProcessAfterInstantiation.  That only skips ITS OWN
+// PostProcessProperties; every processor sorted behind it must still run.  It is priority-ordered with Order 0, i.e. ahead
+// of all built-in processors.
+type quietProc struct {
+	processors.DefaultInstantiationAwareComponentPostProcessor
+}
+
+func (*quietProc) Naming() string { return "zq-quiet" }
+func (*quietProc) Priority()      {}
+func (*quietProc) Order() int     { return 0 }
 
 // a user post-processor with a lifecycle of its own (pass-through callbacks)
 type xproc struct {
@@ -572,6 +584,9 @@ func runEngScenario(sc *EngScenario) []map[string]any {
 		for i := range sc.Mode {
 			sc.Mode[i] = "normal"
 		}
+	}
+	if sc.Quiet {
+		ordered = append(ordered, &quietProc{})
 	}
 	for i, lazy := range sc.Procs {
 		if lazy {
